@@ -21,18 +21,26 @@ META = {
     "note": "",   # filled in below (NOTE)
 }
 
-NOTE = ("Proved for ALL programs/schedules/thread counts (sequentially consistent interleavings): see "
-        "coq/Properties_C09.v header for the list and for what is partial.  The store-buffer half of the "
-        "quantifier is covered by (a) the memory-order obligations on the regenerated site table (entry: store "
-        "then seq_cst fence; tick: seq_cst RMW on x86 / relaxed RMW + seq_cst fence elsewhere; scan: acquire "
-        "loads; unlock: release store) and (b) an explicit store-buffer (TSO) machine for the one-slot skeleton "
-        "(reader: store slot; fence; load cell  ||  writer: store cell; RMW tick; load slot) with a theorem for "
-        "all schedules incl. buffer flushes and a _refuted lemma when the fence is removed; the composition of "
-        "the TSO skeleton with the full algorithm is not mechanised.  The dsched scheduler only produces "
-        "sequentially consistent executions of the real code.  IdAllocator::allocate/deallocate and "
-        "ConcurrentVector::ensure/snapshot are single model steps at their linearisation points (C14/C04).  "
-        "Trusted: Coq kernel; translator; extraction (ExtrOcamlBasic only) + OCaml explorer; macro shim and dsched; "
-        "-fno-access-control in the harness (monitors read Epoch::_version without a scheduling point).")
+NOTE = ("PROVED for all programs / schedules / thread and accessor counts, thread-local and Accessor style, nesting, "
+        "Accessor hand-over, create/release during a scan (sequentially consistent interleavings, fewer than 2^64-1 "
+        "ticks): c09_safety_sc (no reader dereferences a reclaimed object), c09_held_not_freed, c09_reader_holds_mark "
+        "(slot published with a version below every tick taken after the unlink of what the reader holds; every "
+        "running scan has a minimum below that tick or still has the slot ahead inside its bound; no finished scan "
+        "allows the reclaim), c09_open_region_published (nesting + move), c09_unlocked_slot_idle, c09_slots_exclusive, "
+        "memory-order / constant obligations.  PARTIAL: c09_released_never_blocks_partial needs 'no Accessor was "
+        "released while locked so far'; the unrestricted statement is refuted (c09_release_while_locked_refuted, "
+        "replayed on the real code: KNOWN_FINDINGS release-while-locked-holds-mark).  PARTIAL (store-buffer half of the "
+        "quantifier): c09_tso_entry_fence_skeleton proves, on an explicit store-buffer machine, for ALL schedules incl. "
+        "buffer flushes, that reader(load version; store slot; fence; load cell) vs writer(store cell; RMW tick; load "
+        "slot) never both miss each other when the regenerated site table has the seq_cst entry fence after the slot "
+        "store, and c09_tso_without_fence_refuted exhibits the miss without it; this is the ONE-slot, one-reader "
+        "skeleton on the x86 tick branch only - its composition with the full algorithm and the non-x86 branch (relaxed "
+        "RMW + seq_cst fence) are covered only by the order obligations on the site table, not mechanised.  The dsched "
+        "scheduler produces sequentially consistent executions of the real code only.  IdAllocator::allocate/deallocate "
+        "and ConcurrentVector::ensure/snapshot are single model steps at their linearisation points (their own "
+        "correctness is C14/C04); thread exit (ThreadId release) is not modelled inside a run (any allocator history is "
+        "allowed initially).  Trusted: Coq kernel; translator; extraction (ExtrOcamlBasic only) + OCaml explorer; macro "
+        "shim and dsched; -fno-access-control in the harness (monitors read Epoch::_version without a scheduling point).")
 META["note"] = NOTE
 
 
@@ -161,7 +169,8 @@ TARGETED = [
     ("tl", [], "L0,R0,U0,L0,R0,D0,U0|K,Z|K,Z|L0,R0,D0,U0"),
     ("acc", [0, 1, 2, 3], "C0,L0,R0,D0,U0,Z|C1,L1,R1,D1,U1,K|C2,L2,R2,D2,U2,Z|C3,K,Z,L3,R3,D3,U3|K,Z,Z"),
     # slot index beyond the first block of the slot vector (block = 1024)
-    ("acc", [0, 1], "B1024,C0,B3,L0,R0,D0,D0,U0|K,Z,C1,L1,R1,D1,U1,Z|K,Z"),
+    ("acc1023", [0, 1], "C0,C1,L1,R1,D1,D1,U1|K,Z,Z|L0,R0,K,D0,Z,U0"),
+    ("acc1024", [0, 1], "C0,B3,L0,R0,Z,Z,Z,D0,U0|Z,K,Z,C1,L1,R1,D1,U1,Z|Z,K,Z"),
 ]
 
 # release() of an Accessor whose region is still open (see KNOWN_FINDINGS / Properties_C09 c09_release_while_locked_refuted)
@@ -226,7 +235,7 @@ def main(argv):
     if model:
         mlines = []
         for pid, mode, owners, p, fam in progs:
-            if fam in ("small", "rwl") or (fam == "targeted" and "B" not in p and len(p) < 34):
+            if fam in ("small", "rwl") or (fam == "targeted" and mode in ("acc", "tl") and "B" not in p and len(p) < 34):
                 mlines.append("%s %s %s %s" % (pid, mode, ",".join(map(str, owners)) or "-", p))
         mo = chk.run_cases(model, mlines, timeout=1500)
         for pid, l in mo.items():
